@@ -782,6 +782,15 @@ def draw(ctx, cls, entry, rng, n=5, tries=25, geom=None):
                 ctx.count("inadmissible_draw:" + cls.__name__)
                 continue
             pts, t = e["domain"](rng, s, full, g, n)
+            if e["cost"] < 5 and rng.random() < 0.3:
+                # three draws out of ten: the object has already been used, at another time and other points (what a
+                # solver keeps on the instance between calls must not enter the result that the monitors judge)
+                try:
+                    p0, t0 = e["domain"](rng, s, full, g, n)
+                    ctx.call(s, p0, t0)
+                    ctx.count("drawn_solver_used_once_before:" + cls.__name__)
+                except SolverRaised:
+                    pass
             sol = ctx.call(s, pts, t)
         except SolverRaised:
             ctx.count("inadmissible_draw_raised:" + cls.__name__)
